@@ -130,6 +130,8 @@ func (c16) Run(c *wk.Case) {
 	} else {
 		p = gen.GenProgram(c.Rng, c16dials, 1+c.Rng.IntN(4))
 	}
+	// the name of the map variable changes from call to call on the one generator
+	mname := []string{"m", "rec", "self", "m", "data", "m0"}[c.Rng.IntN(6)]
 	attrs := map[string]bool{}
 	for _, a := range p.ArgNames {
 		attrs[a] = true
@@ -138,11 +140,11 @@ func (c16) Run(c *wk.Case) {
 	if c.Index%3 == 2 {
 		// mixed program: some attribute uses are written explicitly through the map variable, which
 		// is the argument of the generated function and has to stay visible as such
-		impOpts = ref.PrintOpts{MapName: "m", Attrs: attrs, Mixed: true, MixMask: c.Rng.Uint64() & c.Rng.Uint64()}
+		impOpts = ref.PrintOpts{MapName: mname, Attrs: attrs, Mixed: true, MixMask: c.Rng.Uint64() & c.Rng.Uint64()}
 		c.Count("mixed_programs", 1)
 	}
 	imp, ok1 := safeSource(p.Root, impOpts)
-	exp, ok2 := safeSource(p.Root, ref.PrintOpts{MapName: "m", Attrs: attrs})
+	exp, ok2 := safeSource(p.Root, ref.PrintOpts{MapName: mname, Attrs: attrs})
 	if !ok1 || !ok2 {
 		c.Inconclusive("generator-bug", "let in a forbidden position")
 		return
@@ -157,9 +159,9 @@ func (c16) Run(c *wk.Case) {
 				panI = r
 			}
 		}()
-		fImp, _, errI = g.GenerateWithMap(imp, "m")
+		fImp, _, errI = g.GenerateWithMap(imp, mname)
 	}()
-	fExp, errE, panE = generate(g, exp, []string{"m"})
+	fExp, errE, panE = generate(g, exp, []string{mname})
 	if panI != nil || panE != nil {
 		c.Violation("generate-panic", fmt.Sprintf("[%s] Generate panics: implicit %q: %v; explicit %q: %v", label, imp, panI, exp, panE), map[string]any{"implicit": imp, "explicit": exp})
 		return
